@@ -350,7 +350,7 @@ def who_may_mutate_rule(prog, res):
             n += 1
             r = m['ret']
             mutable_ref = (r.endswith('&') or r.endswith('*')) and not r.startswith('const ') and 'ezc3d::' in r
-            if not mutable_ref:
+            if not mutable_ref or m.get('deleted'):
                 continue
             where = '%s:%d' % (m['file'].replace(prog.repo + '/', ''), m['line'])
             if q == 'ezc3d::c3d':
@@ -362,7 +362,10 @@ def who_may_mutate_rule(prog, res):
                     res.viol('who-may-mutate', m['qname'], where, 'const method returns a mutable reference (%s): reachable from c3d\'s const accessors' % r, function=m['qname'], expr='ret')
     res.ok('who-may-mutate', 'const accessor chain screened', 'include/', '%d public methods' % n, function='', expr='screen')
     sp = c3d['special']
-    if sp['user_copy_ctor'] or sp['user_copy_assign'] or not any(b.startswith('std::basic_fstream') for b in c3d['bases']):
+    copy_ops_ = [m for m in c3d['methods'] if not m.get('implicit') and ((m.get('kind') == 'ctor' and m.get('copy')) or m.get('name') == 'operator=')]
+    if copy_ops_ and all(m.get('deleted') for m in copy_ops_):
+        pass      # explicitly deleted: not copyable
+    elif sp['user_copy_ctor'] or sp['user_copy_assign'] or not any(b.startswith('std::basic_fstream') for b in c3d['bases']):
         res.viol('who-may-mutate', 'c3d copyable', 'include/ezc3d.h:%d' % c3d['line'], 'two c3d objects could share section handles', function='', expr='copy')
 
 
